@@ -101,7 +101,7 @@ func checkRuntime(c *Ctx, prop string) {
 		if prop == "C09" {
 			cfg.delay = rng.Chance(85)
 		}
-		if (prop == "C08" || prop == "C06") && i%40 == 7 && afterBad == 0 {
+		if (prop == "C08" || prop == "C06" || prop == "C07") && i%40 == 7 && afterBad == 0 {
 			// saturation: a callback that never returns, then enough installs to fill the callback queue
 			// (capacity from the regenerated facts), then more updates incl. rejected ones: the monitor must
 			// keep installing and must never wait for the queue
@@ -580,10 +580,18 @@ func rtBlockingOracle(r *rtRun) []string {
 		case "nil":
 			if u == nil || u.outcome != "installed" {
 				bad("blocking report src=%d v=%d returned nil but its value was not installed", ret.op.Src, ret.op.V)
-			} else if !r.cfg.delay {
-				// verification is in force from the start: a nil answer means the stacked config verified
+			} else {
 				for _, in := range r.installs {
-					if in.serial == u.serial && !slotsValid(in.cfg) {
+					if in.serial != u.serial {
+						continue
+					}
+					// "stacked" means: the version installed for this report carries the reported value in the
+					// reporting source's place (also when that source has called Done before)
+					if slots := strings.Split(in.cfg, "."); ret.op.Src < len(slots) && slots[ret.op.Src] != strconv.Itoa(ret.op.V) {
+						bad("blocking report src=%d v=%d returned nil, but the version installed for it (serial %d) is %s: the reported value is not in it", ret.op.Src, ret.op.V, in.serial, in.cfg)
+					}
+					// verification is in force from the start: a nil answer means the stacked config verified
+					if !r.cfg.delay && !slotsValid(in.cfg) {
 						bad("blocking report src=%d v=%d returned nil although the stacked config %s does not verify (no delayed verification configured)", ret.op.Src, ret.op.V, in.cfg)
 					}
 				}
